@@ -285,13 +285,27 @@ def slots(cx, run):
         b = u.bodies[cands[0]]
         # the slot local: the one whose payload feeds `field` of the returned config aggregate
         slot = None
+        feeds = []
         for blk in b["blocks"]:
             for st in blk["stmts"]:
                 if st["k"] == "assign" and st["rv"]["k"] == "aggregate" and st["rv"].get("agg") == "adt" and field in st["rv"].get("fields", []):
-                    e = sym.expr(b, dict(zip(st["rv"]["fields"], st["rv"]["ops"]))[field])
-                    for t in sym.walk(e):
-                        if isinstance(t, tuple) and t and t[0] == "var":
-                            slot = t[1]
+                    feeds.append(sym.expr(b, dict(zip(st["rv"]["fields"], st["rv"]["ops"]))[field]))
+        if not feeds:
+            # the configuration is built by a local constructor function `Config::new(a, b, c)`: field <- parameter k of that function
+            for bb_, t_, name_, info_ in mir.calls(b):
+                cb = u.bodies.get(name_)
+                if cb is None or cb["in_test_cfg"]:
+                    continue
+                for blk in cb["blocks"]:
+                    for st in blk["stmts"]:
+                        if st["k"] == "assign" and st["rv"]["k"] == "aggregate" and st["rv"].get("agg") == "adt" and field in st["rv"].get("fields", []):
+                            pe = sym.expr(cb, dict(zip(st["rv"]["fields"], st["rv"]["ops"]))[field])
+                            if pe[0] == "arg" and pe[1] - 1 < len(t_["args"]):
+                                feeds.append(sym.expr(b, t_["args"][pe[1] - 1]))
+        for e in feeds:
+            for t in sym.walk(e):
+                if isinstance(t, tuple) and t and t[0] == "var":
+                    slot = t[1]
         if slot is None:
             run.bad("R4", "%s.%s slot" % (fn, field), "cannot find the local that feeds this field")
             continue
